@@ -501,10 +501,17 @@ let monitor_pair prop case obs =
        if not (ok sa) then "PASS" else
        (* known finding D6: claimed where the faithful model's plan is justified *)
        let (_, c) = (match split_ws ka with "K" :: rest -> parse_chain rest | _ -> failwith "bad K") in
+       (* D6 (the keep-set is never pruned again) shows in the full chain as an included provider that
+          nothing receives anything from; only such a chain can lose a further provider when the
+          excluded ones are deleted *)
+       let d6 = not (mon_C03_plan_strict c (parse_plan sa)) in
+       (* ... and the trial eliminations depend on the Shun'd providers tried first, nject's own
+          Shun'd Unused providers (93, 94) among them: with one present the order of the trials, hence
+          the fixed point reached, differs from that of the pruned chain (D6b, D6e) *)
        let shun = List.exists (fun d -> d.d_shun) c.bc_provs
                   || List.exists (fun t -> match String.split_on_char ':' t with
                                    | p :: _ -> p = "93" || p = "94" | [] -> false) (sec "ORDER" sa) in
-       if shun && prop = "C16" then "PASS (D6 region: a Shun'd provider, or nject's own Shun'd Unused provider, is present)" else
+       if (d6 || shun) && prop = "C16" then "PASS (D6 region: the full chain keeps a provider that nothing receives anything from, or a Shun'd provider / nject's own Shun'd Unused provider is present)" else
        if not (ok sb) then "FAIL the chain no longer binds once its excluded providers are deleted"
        else if user_included sa <> user_included sb then "FAIL deleting the excluded providers changes which providers are included"
        else if sec "RES" sa <> sec "RES" sb || sec "LOG" sa <> sec "LOG" sb then "FAIL deleting the excluded providers changes the behaviour"
@@ -626,7 +633,7 @@ let monitor_line prop line =
   match String.split_on_char '\t' line with
   | [case; obs] ->
     (match prop, split_ws case with
-     | "C18", "E" :: rest ->
+     | ("C18" | "C05"), "E" :: rest ->
        (match parse_edits_obs obs with
         | None -> "FAIL implementation did not return: " ^ obs
         | Some o -> verdict (mon_C18 (parse_edits rest) o) "execution order is not the edited list (or an invalid directive was accepted / a valid one rejected)")
@@ -700,7 +707,7 @@ let monitor_line prop line =
        (* the model is the direct computation the helper is specified by *)
        let m = model_line case in
        if obs = m then "PASS" else "FAIL the generated helper differs from direct computation: " ^ first_diff (split_ws obs) (split_ws m)
-     | ("C11" | "C01"), "H" :: _ ->
+     | ("C11" | "C01" | "C03" | "C14" | "C12"), "H" :: _ ->
        (* the property itself, on the implementation's observations alone: a never-used copy of the
           description (0), the collection after the history (1, 2, 7) and collections derived from it
           before the history (3, 4) behave identically; the derivation with one more provider (5) and the
